@@ -104,7 +104,7 @@ fn check_pieces(pieces: &[Piece], rng: &mut Rng) -> Result<Stats, (String, Strin
     if !ok_positions.is_empty() {
         for _ in 0..2 {
             let pos = ok_positions[rng.usize(ok_positions.len())];
-            let n = *rng.pick(&[16usize, 17, 40, 127, 128, 255, 256, 257, 300, 1000]);
+            let n = if rng.chance(1, 40) { *rng.pick(&[16_384usize, 20_000, 65_536]) } else { *rng.pick(&[16usize, 17, 40, 127, 128, 255, 256, 257, 300, 1000]) };
             let run = if rng.chance(1, 4) { "\t".repeat(n) } else { " ".repeat(n) };
             let mut v = String::with_capacity(text.len() + n);
             v.push_str(&text[..pos]);
